@@ -289,7 +289,7 @@ def reg(pid, theorems, run, assumptions):
 
 COMMON_S_THEOREMS = ["Props.acceptor_sound"]
 
-reg("C02", ["Props.C02_deps_before_start", "Props.C01_core"] + COMMON_S_THEOREMS,
+reg("C02", ["Props.C02_deps_before_start", "Props.C02_values_at_start", "Props.C01_core"] + COMMON_S_THEOREMS,
     lambda pid, tier, seed: run_S(pid, tier, seed), ASSUME_S)
 def run_S_and_H(pid, tier, seed):
     """C03 also quantifies over the position of the call in a history on one instance."""
@@ -302,7 +302,7 @@ def run_S_and_H(pid, tier, seed):
 
 
 reg("C03", ["Props.C03_start_at_most_once", "Props.C03_exactly_once_at_done", "Props.C03_only_selected",
-            "Props.C11_setup_at_most_once"] + COMMON_S_THEOREMS, run_S_and_H, ASSUME_S)
+            "Props.C03_distinct_call_sites", "Props.C11_setup_at_most_once"] + COMMON_S_THEOREMS, run_S_and_H, ASSUME_S)
 reg("C04", ["Props.C04_inflight_le_maxc"] + COMMON_S_THEOREMS,
     lambda pid, tier, seed: run_S(pid, tier, seed),
     ASSUME_S + ["OS thread identity is observed by the harness (enter events), not modelled"])
@@ -1154,7 +1154,7 @@ def with_malformed(run, kinds):
     return wrapped
 
 
-reg("C13", ["Props.C13_pulled_debug_has_inputs", "Props.C13_flag_off_no_debug", "Props.C12_selection_is_closure"],
+reg("C13", ["Props.C13_pulled_debug_has_inputs", "Props.C13_flag_off_no_debug", "Props.C13_debug_nodes_never_influence", "Props.C12_selection_is_closure"],
     with_malformed(run_G, ["normal-on-debug"]), ASSUME_G)
 reg("C11", ["Props.C11_setup_at_most_once", "Props.C11_first_value_kept", "VM.not_entered_of_res"], with_malformed(run_H, ["setup-on-normal", "setup-on-arg"]), ASSUME_H)
 def run_H_and_composeprobe(pid, tier, seed):
@@ -1168,7 +1168,7 @@ def run_H_and_composeprobe(pid, tier, seed):
 
 
 reg("C15", ["Props.C15_no_state_but_setup", "VM.applyOp_res_nonsetup", "Props.C01_core"], run_H_and_composeprobe, ASSUME_H)
-reg("C18", ["Props.C18_restart_same", "VM.denote_seeded"], run_H, ASSUME_H)
+reg("C18", ["Props.C18_restart_same", "Props.C18_restart_runs_only_uncached", "VM.denote_seeded"], run_H, ASSUME_H)
 
 
 # ---------------------------------------------------------------------------------------------
@@ -1418,7 +1418,7 @@ ASSUME_T = [
     "setup nodes have run before a DAG is shared between threads (excluded by the statement)",
     "OS thread identity / scheduling is the runtime's; the harness serialises the scripted actions with a condition variable",
 ]
-reg("C16", ["Props.C16_owner_safe", "Props.C16_pinned_witness", "TH.C16_owner_same_schedule"], run_T, ASSUME_T)
+reg("C16", ["Props.C16_owner_safe", "Props.C16_pinned_witness", "TH.C16_owner_same_schedule", "Props.C17b_concurrent_awaits_isolated"], run_T, ASSUME_T)
 
 
 # ---------------------------------------------------------------------------------------------
